@@ -1,3 +1,39 @@
-From ICG Require Import Prelude.
-Theorem stub : True. Proof. exact I. Qed.
-Print Assumptions stub.
+(* C01 - Superadditive bounds always contain the true game.
+   Statements only; proofs live in theories/SASound.v and theories/SAEquiv.v. *)
+From ICG Require Import Prelude Bits Table Bounds FoldLemmas BoundsSpec SASound SAEquiv Checks.
+
+(* For either superadditive computer, any player count, any knowledge K containing the minimal information,
+   any superadditive hidden game v, and ANY table t holding that knowledge (unknown rows arbitrary, i.e. whatever
+   stale numbers an earlier history left): after the computation the true value of every coalition lies in
+   [lower, upper], lower <= upper, the known flags are K, and every known row is untouched and equals its value. *)
+Theorem C01_sa_sound :
+  forall (c : computer) (n : nat) (K : N -> bool) (v : N -> Q) (t t' : table),
+    (c = CRef \/ c = CCached) -> SA n v -> MinK n K -> agrees n t K v -> compute c n t = Some t' ->
+    forall s, bounded n s ->
+      L t' s <= v s /\ v s <= U t' s /\ L t' s <= U t' s /\ Kn t' s = K s
+      /\ (K s = true -> get t' s = get t s /\ L t' s == v s /\ U t' s == v s).
+Proof. exact sa_sound. Qed.
+Print Assumptions C01_sa_sound.
+
+(* the computation is defined (raises nothing) under the same hypotheses *)
+Theorem C01_sa_defined :
+  forall (c : computer) (n : nat) (K : N -> bool) (v : N -> Q) (t : table),
+    (c = CRef \/ c = CCached) -> MinK n K -> agrees n t K v -> exists t', compute c n t = Some t'.
+Proof. exact sa_defined. Qed.
+Print Assumptions C01_sa_defined.
+
+(* Non-vacuity: a non-additive superadditive 3-player game with negative and non-zero singletons,
+   K = minimal information + {0,1}, stale rows holding 77 / -77: the hypotheses hold and an interval is non-degenerate. *)
+Definition ex_v : N -> Q := game_of [0; -1; 2; 3; 1#2; 1; 4; 9].
+Definition ex_K : N -> bool := known_in [0; 1; 2; 4; 7; 3]%N.
+Definition ex_t : table := table_of 3 ex_K ex_v 77.
+
+Example C01_hypotheses_satisfiable :
+  SA 3 ex_v /\ MinK 3 ex_K /\ agrees 3 ex_t ex_K ex_v
+  /\ exists t', compute CCached 3 ex_t = Some t' /\ compute CRef 3 ex_t = Some t' /\ L t' 5 < U t' 5.
+Proof.
+  split; [apply sa_check_sound; vm_compute; reflexivity|].
+  split; [apply mink_check_sound; vm_compute; reflexivity|].
+  split; [apply agrees_check_sound; vm_compute; reflexivity|].
+  eexists. split; [vm_compute; reflexivity|]. split; [vm_compute; reflexivity|]. vm_compute. reflexivity.
+Qed.
